@@ -96,12 +96,16 @@ func c12Setup() {
 	xfer.Reg(c12gz)
 }
 
-var c12mode = flag.String("mode", "pipe", "pipe|live|protos")
+var c12mode = flag.String("mode", "pipe", "pipe|live|protos|seq")
 
 func main() {
 	cfg := ParseFlags()
 	if *c12mode == "live" {
 		runC12Live(cfg)
+		return
+	}
+	if *c12mode == "seq" {
+		runC12Seq(cfg)
 		return
 	}
 	if *c12mode == "protos" {
@@ -179,6 +183,17 @@ func runC12(cfg *RunCfg) {
 		st.Count("ids:" + idClass)
 		st.Count("payload:" + plClass)
 		c12gz.tab = c12gz.tab[:0]
+		// a quarter of the gzip pipes run under a size limit near the payload size: what inflates
+		// beyond the limit must be REFUSED (never truncated), what fits must round-trip
+		lim := uint32(0)
+		if bytes.Contains(ids, []byte{'g'}) && len(payload) > 2 && cfg.Rng.Intn(4) == 0 {
+			lim = uint32(len(payload) + []int{-2, -1, 0, 1, 20}[cfg.Rng.Intn(5)])
+			if cfg.Rng.Intn(3) == 0 {
+				lim = uint32(len(payload)/2 + 1)
+			}
+			st.Count("limited-gzip")
+		}
+		xfer.SetSizeLimit(lim)
 
 		pipe := xfer.NewXferPipe()
 		err := pipe.Append(ids...)
@@ -201,6 +216,7 @@ func runC12(cfg *RunCfg) {
 			if perr == nil {
 				packedOK = true
 				packed = append([]byte(nil), p...)
+				ownStages := len(c12gz.tab) // gzip stages of THIS payload (the packs below add others)
 				// the packed payload must stay intact while OTHER payloads are packed (frames are
 				// built by concurrent writers; a filter must not hand out a buffer it recycles)
 				other := RandBytes(cfg.Rng, 1+cfg.Rng.Intn(300))
@@ -216,7 +232,19 @@ func runC12(cfg *RunCfg) {
 					unpacked = append([]byte(nil), u...)
 				}
 				// property oracle on the implementation alone
-				if !unpackedOK || !bytes.Equal(unpacked, payload) {
+				overLimit := false
+				for _, pr := range c12gz.tab[:ownStages] {
+					if lim > 0 && len(pr[0]) > int(lim) {
+						overLimit = true
+					}
+				}
+				switch {
+				case overLimit && unpackedOK:
+					st.Count("limited-gzip:over")
+					st.Fail(i, "over-limit-not-refused", fmt.Sprintf("a gzip stage inflating beyond the size limit %d was not refused: unpack returned %d bytes (payload %d) with a nil error", lim, len(unpacked), len(payload)), human)
+				case overLimit:
+					st.Count("limited-gzip:over")
+				case !unpackedOK || !bytes.Equal(unpacked, payload):
 					st.Fail(i, "roundtrip", "unpack(pack(x)) != x", human)
 				}
 				// single-byte corruption, only for pipes without gzip (library behaviour on
@@ -271,7 +299,8 @@ func runC12(cfg *RunCfg) {
 		for _, pr := range c12gz.tab {
 			gz = append(gz, VL(VB(pr[0]), VB(pr[1])))
 		}
-		w.Add(VL(VB(ids), VB(payload), VL(gz...), VL(corruptIn...)),
+		xfer.SetSizeLimit(0)
+		w.Add(VL(VB(ids), VB(payload), VL(gz...), VL(corruptIn...), VN(int64(lim))),
 			VL(VN(int64(errCode)), VB(gotIDs), VOpt(packed, packedOK), VOpt(unpacked, unpackedOK), VL(corruptObs...)))
 		key := Hx(ids) + "/" + Hx(payload)
 		if len(ids) >= 1 && (len(payload) > 0 || errCode != 0) {
